@@ -51,11 +51,18 @@ def run(R, only_cases=None):
     cases = only_cases or [G.gen_case(rnd, canary_modules=cm, malformed_p=0.2) for _ in range(n)]
     if only_cases:
         cm = [f"verif_cm_{k}" for k in range(400)]
+    if only_cases is None:
+        # members far larger than any buffering threshold: inspection must still only read them
+        for k, loader in enumerate(("NdArrayNode", "SparseMatrixNode", "BytesNode")):
+            st = {"__class__": "ndarray", "__module__": "numpy", "__loader__": loader, "__id__": 1, "protocol": snap["protocol"],
+                  "type": "numpy" if loader == "NdArrayNode" else "scipy", "file": "big.npy"}
+            cases.append({"schema": st, "members": ["big.npy"], "big": {"big.npy": 48 * 2 ** 20}, "tspec": "empty", "tseed": 0, "show": "all",
+                          "malformed": False, "wellformed": True, "notes": ["big-member probe"], "no_model": True})
     make_canaries(scratch / "cm", len(cm) + 1)
     # (a) the model predicts the same verdicts (ties get_tree / audit to the code on these archives too)
     for c in cases:
         c["tspec"], c["show"] = "empty", "all"
-    recs, bad, _ = IO.run_batch(R, cases, aspects=("gut", "audit", "rows"), tag="c02")
+    recs, bad, _ = IO.run_batch(R, [c for c in cases if not c.get("no_model")], aspects=("gut", "audit", "rows"), tag="c02")
     IO.report_disagreements(R, cases, recs, bad, "C02")
     # (b) inertness observed on the implementation
     shards = 8
